@@ -1,4 +1,5 @@
 import Srctools.Proofs.C15
+import Srctools.Proofs.C15Struct
 import Srctools.Model.C15File
 import Srctools.Gen.Vtf
 /-!
@@ -318,5 +319,201 @@ theorem C15_565_repaired (c : Codec) (hc : c = fixedRGB565 ∨ c = fixedBGR565) 
   · exact ⟨quant_of_same fixedBGR565 qE565 (by decide +kernel) p hp,
       words_of_same fixedBGR565 [.var 0, .var 1] (by decide) (by decide +kernel) [x, y] hb,
       idem_of_same fixedBGR565 (by decide) (by decide +kernel) p hp⟩
+
+/-! ## Mipmaps -/
+
+/-- The chain `VTF.__init__` creates for a `2^a × 2^b` texture has `min a b + 1` levels, level `k`
+is `2^(a-k) × 2^(b-k)` — exactly the size `VTF.read` computes for mipmap `k` from the header
+(`max (w >> k) 1`) — and `mipmap_count` is `max (min a b) 1`: every declared level exists, with the
+size the reader expects, and there is always at least the full-size level. (The smallest created
+level is not declared for sizes ≥ 2: as coded, pinned by the repository's reference files.) -/
+theorem C15_mips (a b : Nat) :
+    (ctorLevels (2 ^ a) (2 ^ b)).length = min a b + 1 ∧
+    ctorMipCount (2 ^ a) (2 ^ b) = max (min a b) 1 ∧
+    ∀ k, k < ctorMipCount (2 ^ a) (2 ^ b) →
+      (ctorLevels (2 ^ a) (2 ^ b))[k]? = some (readerDims (2 ^ a) (2 ^ b) k) ∧
+      readerDims (2 ^ a) (2 ^ b) k = (2 ^ (a - k), 2 ^ (b - k)) := by
+  have hl : (ctorLevels (2 ^ a) (2 ^ b)).length = min a b + 1 := by simp [ctorLevels_pow]
+  refine ⟨hl, by simp [ctorMipCount, hl], ?_⟩
+  intro k hk
+  have hk' : k ≤ min a b := by simp only [ctorMipCount, hl] at hk; omega
+  have ha : k ≤ a := by omega
+  have hb : k ≤ b := by omega
+  have hr : readerDims (2 ^ a) (2 ^ b) k = (2 ^ (a - k), 2 ^ (b - k)) := by
+    simp only [readerDims, shiftRight_two_pow _ _ ha, shiftRight_two_pow _ _ hb]
+    have h1 := Nat.two_pow_pos (a - k)
+    have h2 := Nat.two_pow_pos (b - k)
+    rw [Nat.max_eq_left h1, Nat.max_eq_left h2]
+  refine ⟨?_, hr⟩
+  rw [hr, ctorLevels_pow]
+  simp [show k < min a b + 1 by omega, shiftRight_two_pow _ _ ha, shiftRight_two_pow _ _ hb]
+
+/-- `scale_down` on a source that is `sx × sy` times the destination, `sx, sy ∈ {1, 2}`:
+**bilinear** writes the floor average of the `sx × sy` block (each source pixel counted
+`4 / (sx·sy)` times, i.e. the mean of the 2×2, 2×1 or 1×2 block); `dest` keeps its length. -/
+theorem C15_bilinear (w h sx sy : Nat) (hsx : sx = 1 ∨ sx = 2) (hsy : sy = 1 ∨ sy = 2)
+    (src : List Nat) (x y ch : Nat) (hx : x < w) (hy : y < h) (hc : ch < 4) :
+    let S := fun (dx dy : Nat) => pxAt (sx * w) src (sx * x + dx) (sy * y + dy) ch
+    (scaleDown 4 (sx * w) (sy * h) w h src).map (fun dst => (dst.length, pxAt w dst x y ch))
+      = some (4 * (w * h), (S 0 0 + S (sx - 1) 0 + S 0 (sy - 1) + S (sx - 1) (sy - 1)) / 4) := by
+  intro S
+  have hlt := idx_lt w h x y ch hx hy hc
+  obtain ⟨d1, d2, d3, d4⟩ := idx_div w x y ch hx hc
+  simp only [scaleDown, Nat.lt_irrefl, if_false, if_true, Option.map_some, List.length_map,
+    List.length_range, Option.some.injEq, Prod.mk.injEq, true_and]
+  rw [pxAt_eq, range_map_getD _ _ _ hlt]
+  simp only [S, pxAt_eq, bilinearAt, scaleOffs, toArray_getD, d1, d2, d3, d4]
+  have e : w ≠ 2 * w := by omega
+  have e' : h ≠ 2 * h := by omega
+  rcases hsx with rfl | rfl <;> rcases hsy with rfl | rfl
+  · simp only [Nat.one_mul, ne_eq, not_true_eq_false, if_false, Nat.sub_self, Nat.add_zero]
+  · simp only [Nat.one_mul, ne_eq, not_true_eq_false, if_false, e', not_false_eq_true, if_true,
+      Nat.sub_self, Nat.add_zero, Nat.add_one_sub_one]
+    ring_nf
+  · simp only [Nat.one_mul, ne_eq, not_true_eq_false, if_false, e, not_false_eq_true, if_true,
+      Nat.sub_self, Nat.add_zero, Nat.add_one_sub_one]
+    ring_nf
+  · simp only [ne_eq, e, e', not_false_eq_true, if_true, Nat.add_zero, Nat.add_one_sub_one]
+    ring_nf
+
+/-- The four nearest-neighbour modes copy the upper-left (0) / upper-right (1) / lower-left (2) /
+lower-right (3) pixel of the `sx × sy` block. -/
+theorem C15_nearest (w h sx sy filt : Nat) (hsx : sx = 1 ∨ sx = 2) (hsy : sy = 1 ∨ sy = 2)
+    (hf : filt < 4) (src : List Nat) (x y ch : Nat) (hx : x < w) (hy : y < h) (hc : ch < 4) :
+    (scaleDown filt (sx * w) (sy * h) w h src).map (fun dst => (dst.length, pxAt w dst x y ch))
+      = some (4 * (w * h), pxAt (sx * w) src (sx * x + (if filt % 2 = 1 then sx - 1 else 0))
+          (sy * y + (if filt / 2 = 1 then sy - 1 else 0)) ch) := by
+  have hlt := idx_lt w h x y ch hx hy hc
+  obtain ⟨d1, d2, d3, d4⟩ := idx_div w x y ch hx hc
+  simp only [scaleDown, hf, if_true, Option.map_some, List.length_map,
+    List.length_range, Option.some.injEq, Prod.mk.injEq, true_and]
+  rw [pxAt_eq, range_map_getD _ _ _ hlt]
+  simp only [pxAt_eq, nearestAt, scaleOffs, toArray_getD, d1, d2, d3, d4]
+  have e : w ≠ 2 * w := by omega
+  have e' : h ≠ 2 * h := by omega
+  have hfc : filt = 0 ∨ filt = 1 ∨ filt = 2 ∨ filt = 3 := by omega
+  rcases hsx with rfl | rfl <;> rcases hsy with rfl | rfl <;>
+    rcases hfc with rfl | rfl | rfl | rfl <;>
+    simp [e, e'] <;> (try ring_nf)
+
+/-! ## Pixel access is bounds-checked -/
+
+/-- `Frame.__getitem__` / `__setitem__` (after repair `dd9dae5`) succeed exactly for
+`0 ≤ x < width ∧ 0 ≤ y < height`; every other index raises `IndexError`. -/
+theorem C15_bounds (w h : Nat) (x y : Int) :
+    (frameIndex w h x y).isSome ↔ (0 ≤ x ∧ x < w ∧ 0 ≤ y ∧ y < h) := by
+  unfold frameIndex
+  split <;> simp_all
+
+/-- When access succeeds the four components are `_data[off : off + 4]` with
+`off = 4·(width·y + x)`, which lies inside the `4·width·height` array (so the slice has exactly four
+elements), and distinct in-range coordinates address disjoint slices. -/
+theorem C15_bounds_offset (w h : Nat) (x y : Int) (off : Nat) (hs : frameIndex w h x y = some off) :
+    off = 4 * (w * y.toNat + x.toNat) ∧ off + 4 ≤ 4 * (w * h) ∧
+    ∀ (x' y' : Int), frameIndex w h x' y' = some off → x' = x ∧ y' = y := by
+  have key : ∀ (x y : Int) (off : Nat), frameIndex w h x y = some off →
+      ∃ xn yn : Nat, x = xn ∧ y = yn ∧ xn < w ∧ yn < h ∧ off = 4 * (w * yn + xn) := by
+    intro x y off hs
+    unfold frameIndex at hs
+    split at hs
+    · rename_i hc
+      obtain ⟨h0, h1, h2, h3⟩ := hc
+      obtain ⟨xn, rfl⟩ := Int.eq_ofNat_of_zero_le h0
+      obtain ⟨yn, rfl⟩ := Int.eq_ofNat_of_zero_le h2
+      refine ⟨xn, yn, rfl, rfl, by omega, by omega, ?_⟩
+      have e : ((yn : Int) * (w : Int) + (xn : Int)) * 4
+          = ((4 * (w * yn + xn) : Nat) : Int) := by push_cast; ring
+      simp only [Option.some.injEq] at hs
+      rw [e, Int.toNat_natCast] at hs
+      exact hs.symm
+    · simp at hs
+  obtain ⟨xn, yn, rfl, rfl, hx, hy, rfl⟩ := key x y off hs
+  refine ⟨by simp, ?_, ?_⟩
+  · have := idx_lt w h xn yn 0 hx hy (by decide); omega
+  · intro x' y' hs'
+    obtain ⟨xn', yn', rfl, rfl, hx', hy', he⟩ := key x' y' _ hs'
+    have e : w * yn + xn = w * yn' + xn' := by omega
+    have hw : 0 < w := by omega
+    have a1 := (idx_div w xn yn 0 hx (by decide)).2.2
+    have a2 := (idx_div w xn' yn' 0 hx' (by decide)).2.2
+    rw [e] at a1
+    constructor
+    · have : xn' = xn := by rw [← a2.2, ← a1.2]
+      omega
+    · have : yn' = yn := by rw [← a2.1, ← a1.1]
+      omega
+
+/-! ## Frame table -/
+
+/-- **The set of frame keys stored in a file is the product of the header counts**: frames ×
+(cube sides — 7 before 7.5, 6 from 7.5 on — or depth slices) × mipmaps; each key occurs once
+(the list has exactly that many entries). -/
+theorem C15_keys (mc fc flags minor depth : Nat) (k : Nat × Nat × Nat) :
+    (k ∈ fileKeys mc fc (depthSeq flags minor depth) ↔
+      k.1 < fc ∧ k.2.1 < sideCount flags minor depth ∧ k.2.2 < mc) ∧
+    (fileKeys mc fc (depthSeq flags minor depth)).length = mc * (fc * sideCount flags minor depth) := by
+  refine ⟨by rw [mem_fileKeys, mem_depthSeq], ?_⟩
+  rw [length_fileKeys]
+  congr 2
+  unfold depthSeq sideCount
+  split
+  · split <;> simp
+  · simp
+
+/-- Side counts per version: a cubemap has 7 sides (with the sphere map) up to 7.4 and 6 from 7.5. -/
+theorem C15_side_counts (depth minor : Nat) :
+    sideCount 0 minor depth = depth ∧
+    sideCount envmapFlag minor 1 = (if minor ≥ 5 then 6 else 7) := by
+  constructor
+  · simp [sideCount, envmapFlag]
+  · simp [sideCount, envmapFlag]
+
+/-- **Writer and reader lay the frames out identically.** `VTF.save` writes the declared frames of
+a constructor-built `2^a × 2^b` texture in `fileKeys` order, each with the size of its own `Frame`
+(the constructor's chain); `VTF.read` walks the same key order computing sizes from the header.
+Both give the same (key, width, height, offset) table for every frame-size function (= every format),
+frame count, side/depth sequence and start offset. -/
+theorem C15_layout (a b fc : Nat) (dseq : List Nat) (fsz : Nat → Nat → Nat) (off : Nat) :
+    let mc := ctorMipCount (2 ^ a) (2 ^ b)
+    layoutFrom fsz (fun m => (ctorLevels (2 ^ a) (2 ^ b)).getD m (0, 0)) (fileKeys mc fc dseq) off
+      = layoutFrom fsz (readerDims (2 ^ a) (2 ^ b)) (fileKeys mc fc dseq) off ∧
+    (layoutFrom fsz (readerDims (2 ^ a) (2 ^ b)) (fileKeys mc fc dseq) off).map (·.1)
+      = fileKeys mc fc dseq := by
+  intro mc
+  refine ⟨?_, layoutFrom_keys _ _ _ _⟩
+  apply layoutFrom_congr
+  intro k hk
+  have hm := ((mem_fileKeys mc fc dseq k).mp hk).2.2
+  have := ((C15_mips a b).2.2 k.2.2 hm).1
+  simp [List.getD_eq_getElem?_getD, this]
+
+/-! ## Header fields -/
+
+/-- A little-endian field of `k` bytes reads back as the number written when it fits (`struct`
+refuses to pack a number that does not fit), and has exactly `k` bytes. -/
+theorem C15_le_roundtrip (k n : Nat) (h : n < 256 ^ k) :
+    leDecode (le k n) = n ∧ (le k n).length = k := by
+  rw [leDecode_le, Nat.mod_eq_of_lt h, length_le]; exact ⟨rfl, rfl⟩
+
+/-! ## Non-vacuity: the hypotheses are satisfiable, and the laws visibly bite -/
+
+example : (⟨200, 100, 50, 129⟩ : Px).valid := by decide
+-- BGRA5551 really quantises
+example : loadF (codecOf 21) (saveF (codecOf 21) ⟨200, 100, 50, 129⟩) = ⟨206, 99, 49, 255⟩ := by decide
+-- the 565 defect, concretely: pure red comes back pure blue
+example : loadF (codecOf 4) (saveF (codecOf 4) ⟨255, 0, 0, 255⟩) = ⟨0, 0, 255, 255⟩ := by decide
+-- ... and a pixel inside the partial theorem's class survives
+example : loadF (codecOf 4) (saveF (codecOf 4) ⟨16, 200, 23, 7⟩) = quant 4 ⟨16, 200, 23, 7⟩ := by decide
+-- a 16x4 texture: three levels created, two declared, sizes as the reader computes them
+example : ctorLevels 16 4 = [(16, 4), (8, 2), (4, 1)] ∧ ctorMipCount 16 4 = 2 ∧ ctorMipCount 1 8 = 1 := by
+  decide
+-- pixel access: (4,0) on a 4x4 frame is rejected (the defect accepted it), (3,3) is the last pixel
+example : frameIndex 4 4 4 0 = none ∧ frameIndex 4 4 (-1) 0 = none ∧ frameIndex 4 4 3 3 = some 60 := by
+  decide
+-- a 2-frame 7.4 cubemap with 3 mipmaps has 2*7*3 stored frames, a 7.5 one 2*6*3
+example : (fileKeys 3 2 (depthSeq envmapFlag 4 1)).length = 42 ∧
+    (fileKeys 3 2 (depthSeq envmapFlag 5 1)).length = 36 := by decide
+-- the decision procedure rejects a wrong claim (BGRA4444 does not keep 5 bits)
+example : sameList ((codecOf 19).load.map (E.subst (codecOf 19).save)) qE5551x = false := by decide +kernel
 
 end C15
